@@ -465,6 +465,39 @@ Proof. exists [ascii_of_nat 97; bs], [ascii_of_nat 98]. vm_compute. discriminate
 Lemma parse_doc_refuted_eq : exists v, parse (doc_render [IQuoted v]) <> values [IQuoted v].
 Proof. exists (L "a=b"). vm_compute. discriminate. Qed.
 
+(* Every clause of V0 is needed by a class that judges items one by one: for each clause there is an item
+   violating just that clause and a documented context (the item alone, or followed by one harmless quoted item) in
+   which the parse goes wrong.  (Some such items happen to work when they are the LAST quoted item of the string -
+   a trailing backslash or a trailing = then meets no further quote; V0 does not look at the context.) *)
+Lemma V0_clauses_needed :
+  (* quoted value ending in a quote *)
+  (exists v, qval_ok v = false /\ head_ok v = true /\ parse (doc_render [IQuoted v]) <> values [IQuoted v]) /\
+  (* quoted value ending in a backslash *)
+  (exists v w, qval_ok v = false /\ head_ok v = true /\ v0_item (IQuoted w) = true /\
+               parse (doc_render [IQuoted v; IQuoted w]) <> values [IQuoted v; IQuoted w]) /\
+  (* unnamed quoted value whose first space-or-= is an = followed by a non-space *)
+  (exists v, qval_ok v = true /\ head_ok v = false /\ parse (doc_render [IQuoted v]) <> values [IQuoted v]) /\
+  (* ... or by the closing quote *)
+  (exists v w, qval_ok v = true /\ head_ok v = false /\ v0_item (IQuoted w) = true /\
+               parse (doc_render [IQuoted v; IQuoted w]) <> values [IQuoted v; IQuoted w]) /\
+  (* a bare word with a quote, with an inner =, starting with a back-tick *)
+  (exists v, word_ok v = false /\ parse (doc_render [IWord v]) <> values [IWord v]) /\
+  (exists v, word_ok v = true /\ no_inner_eq v = false /\ parse (doc_render [IWord v]) <> values [IWord v]) /\
+  (exists v w, word_ok v = false /\ v0_item (IWord w) = true /\ parse (doc_render [IWord v; IWord w]) <> values [IWord v; IWord w]) /\
+  (* a name with an = *)
+  (exists n v, name_ok n = false /\ word_ok v = true /\ parse (doc_render [INamed n v]) <> values [INamed n v]).
+Proof.
+  repeat split.
+  - exists (L "a" ++ [dq]). repeat split; try reflexivity. vm_compute. discriminate.
+  - exists (L "a\"), (L "b"). repeat split; try reflexivity. vm_compute. discriminate.
+  - exists (L "a=b"). repeat split; try reflexivity. vm_compute. discriminate.
+  - exists (L "a="), (L "b"). repeat split; try reflexivity. vm_compute. discriminate.
+  - exists (L "a" ++ dq :: L "b"). repeat split; try reflexivity. vm_compute. discriminate.
+  - exists (L "a=b"). repeat split; try reflexivity. vm_compute. discriminate.
+  - exists (L "`a"), (L "b`"). repeat split; try reflexivity. vm_compute. discriminate.
+  - exists (L "a=b"), (L "c"). repeat split; try reflexivity. vm_compute. discriminate.
+Qed.
+
 (* ------------------------------------------------------------------------------------------------ *)
 (* Satisfiability of the classes                                                                      *)
 (* ------------------------------------------------------------------------------------------------ *)
